@@ -207,7 +207,7 @@ func genC15(e *emitter, tier string) {
 		}
 	}
 	// names outside the opset
-	for _, bad := range []string{"", "abs", "ABS", "Abs ", "Conv2D", "Foo", "Gelu", "MaxPool", "Relu6", "lstm", "Identity", "Dropout"} {
+	for _, bad := range []string{"", "abs", "ABS", "Abs ", " Abs", "Abs\n", "\tRelu", "Conv2D", "Foo", "Gelu", "MaxPool", "Relu6", "Rel", "lstm", "Lstm", "Identity", "Dropout", "ai.onnx.Relu", "Relu:13", "Add,Sub"} {
 		c := &Case{Kind: "lookup", Op: bad, P: map[string]any{"registered": false}}
 		c.Impl = guard(func() *Result {
 			op, err := opset13.GetOperator(bad)
